@@ -4,9 +4,9 @@ b=$1
 cd /verif
 git merge --no-commit --no-ff $b > /tmp/merge.log 2>&1
 # generated / shared files: keep ours then regenerate
-for f in lean/PS.lean lean/PS/Drv/All.lean MANIFEST.json known_findings.json; do
+for f in lean/PS.lean lean/PS/Drv/All.lean MANIFEST.json known_findings.json harness/anchors.json harness/meta/C02.json harness/meta/C03.json harness/meta/C12.json harness/c02.py harness/c03.py harness/c12.py lean/PS/Props/C02.lean lean/PS/Props/C03.lean lean/PS/Props/C12.lean; do
   git checkout --ours -- $f 2>/dev/null; git add $f 2>/dev/null
 done
 git rm -q --cached -r evidence 2>/dev/null; git checkout -q HEAD -- evidence 2>/dev/null
-python3 tools/gen_lean_roots.py
+python3 tools/gen_lean_roots.py; python3 tools/merge_parts_meta.py >/dev/null; git add harness/meta/C02.json harness/meta/C03.json harness/meta/C12.json harness/c02.py harness/c03.py harness/c12.py lean/PS/Props/C02.lean lean/PS/Props/C03.lean lean/PS/Props/C12.lean 2>/dev/null
 git status --short | grep -E "^(UU|AA|DU|UD)" && echo "CONFLICTS REMAIN"
